@@ -16,84 +16,189 @@ theorem map_get {f : Op → Op} {l : List Op} {id : Nat} {o : Op} (ho : l[id]? =
     (l.map f)[id]? = some (f o) := by
   simp only [List.getElem?_map, ho, Option.map_some]
 
-/-! ### only the addressed op is touched -/
+/-! ### what a cancel does to the OTHER ops
 
-theorem driverCancel_frame (s : State) (id : Nat) (o : Op) {j : Nat} (hj : j ≠ id) :
-    (driverCancel s id o).ops[j]? = s.ops[j]? := by
-  unfold driverCancel iourCancel pollCancel
+On the polling driver nothing at all. On io_uring a cancel whose SQE overflows the submission queue runs one
+`push_raw` round (submit, drain), which lets other ops progress — but never touches their handles, flags or
+identity, and resurrects nothing (`Same`). -/
+
+theorem driverCancel_frame_poll (c : Cfg) (s : State) (id : Nat) (o : Op) (posts : List (Nat × Bool × Res))
+    (hd : s.drv = .poll) {j : Nat} (hj : j ≠ id) : (driverCancel c s id o posts).ops[j]? = s.ops[j]? := by
+  unfold driverCancel pollCancel
+  simp only [hd]
   split
-  · split <;> exact getElem?_modAt_ne _ _ (Ne.symm hj)
-  · split
-    · rfl
-    · exact getElem?_modAt_ne _ _ (Ne.symm hj)
+  · rfl
+  · exact getElem?_modAt_ne _ _ (Ne.symm hj)
 
-theorem cancelIssue_frame (s : State) (id : Nat) (o : Op) {j : Nat} (hj : j ≠ id) :
-    (cancelIssue s id o).ops[j]? = s.ops[j]? := by
+theorem driverCancel_same (c : Cfg) (s : State) (id : Nat) (o : Op) (posts : List (Nat × Bool × Res))
+    {j : Nat} (hj : j ≠ id) {x : Op} (hx : s.ops[j]? = some x) :
+    ∃ x', (driverCancel c s id o posts).ops[j]? = some x' ∧ Same x x' := by
+  unfold driverCancel
+  split
+  · exact (iourCancel_same c s id posts).get hx
+  · unfold pollCancel
+    split
+    · exact ⟨x, hx, Same.rfl' x⟩
+    · exact ⟨x, by rw [getElem?_modAt_ne _ _ (Ne.symm hj)]; exact hx, Same.rfl' x⟩
+
+theorem cancelIssue_frame_poll (c : Cfg) (s : State) (id : Nat) (o : Op) (posts : List (Nat × Bool × Res))
+    (hd : s.drv = .poll) {j : Nat} (hj : j ≠ id) : (cancelIssue c s id o posts).ops[j]? = s.ops[j]? := by
   unfold cancelIssue
-  simp only [getElem?_modAt_ne _ _ (Ne.symm hj), driverCancel_frame _ _ _ hj]
+  simp only [getElem?_modAt_ne _ _ (Ne.symm hj)]
+  rw [driverCancel_frame_poll c { s with ops := modAt (fun o => { o with cancelled := true }) s.ops id } id o posts hd hj]
+  exact getElem?_modAt_ne _ _ (Ne.symm hj)
 
-theorem cancelKey_frame (s : State) (id : Nat) (o : Op) {j : Nat} (hj : j ≠ id) :
-    (cancelKey s id o).ops[j]? = s.ops[j]? := by
+theorem cancelIssue_same (c : Cfg) (s : State) (id : Nat) (o : Op) (posts : List (Nat × Bool × Res))
+    {j : Nat} (hj : j ≠ id) {x : Op} (hx : s.ops[j]? = some x) :
+    ∃ x', (cancelIssue c s id o posts).ops[j]? = some x' ∧ Same x x' := by
+  unfold cancelIssue
+  have h1 : ({ s with ops := modAt (fun o => { o with cancelled := true }) s.ops id } : State).ops[j]? = some x := by
+    show (modAt _ s.ops id)[j]? = some x
+    rw [getElem?_modAt_ne _ _ (Ne.symm hj)]; exact hx
+  obtain ⟨x', h2, hs⟩ := driverCancel_same c _ id o posts hj h1
+  exact ⟨x', by simp only [getElem?_modAt_ne _ _ (Ne.symm hj)]; exact h2, hs⟩
+
+theorem cancelKey_same (c : Cfg) (s : State) (id : Nat) (o : Op) (posts : List (Nat × Bool × Res))
+    {j : Nat} (hj : j ≠ id) {x : Op} (hx : s.ops[j]? = some x) :
+    ∃ x', (cancelKey c s id o posts).ops[j]? = some x' ∧ Same x x' := by
   unfold cancelKey
   split
-  · exact getElem?_modAt_ne _ _ (Ne.symm hj)
+  · exact ⟨x, by show (modAt _ s.ops id)[j]? = some x; rw [getElem?_modAt_ne _ _ (Ne.symm hj)]; exact hx, Same.rfl' x⟩
   · split
-    · exact getElem?_modAt_ne _ _ (Ne.symm hj)
-    · exact cancelIssue_frame s id o hj
+    · exact ⟨x, by show (modAt _ s.ops id)[j]? = some x; rw [getElem?_modAt_ne _ _ (Ne.symm hj)]; exact hx, Same.rfl' x⟩
+    · exact cancelIssue_same c s id o posts hj hx
 
-theorem cancelTok_frame (s : State) (id : Nat) (o : Op) {j : Nat} (hj : j ≠ id) :
-    (cancelTok s id o).ops[j]? = s.ops[j]? := by
+theorem cancelTok_same (c : Cfg) (s : State) (id : Nat) (o : Op) (posts : List (Nat × Bool × Res))
+    {j : Nat} (hj : j ≠ id) {x : Op} (hx : s.ops[j]? = some x) :
+    ∃ x', (cancelTok c s id o posts).ops[j]? = some x' ∧ Same x x' := by
   unfold cancelTok
+  have h0 : ({ s with ops := modAt (fun o => ({ o.cloneRef with user := o.user + 1 } : Op)) s.ops id } : State).ops[j]?
+      = some x := by
+    show (modAt _ s.ops id)[j]? = some x
+    rw [getElem?_modAt_ne _ _ (Ne.symm hj)]; exact hx
   split
-  · simp only [getElem?_modAt_ne _ _ (Ne.symm hj)]
-  · rw [cancelIssue_frame _ _ _ hj]; simp only [getElem?_modAt_ne _ _ (Ne.symm hj)]
+  · exact ⟨x, by simp only [getElem?_modAt_ne _ _ (Ne.symm hj)]; exact hx, Same.rfl' x⟩
+  · exact cancelIssue_same c _ id _ posts hj h0
+
+/-- submit, CQE posts and drains never touch the counter of dropped cancel SQEs -/
+theorem overflowDrain_cancelDropped (s : State) (posts : List (Nat × Bool × Res)) {i : Nat} {x y : Op}
+    (hx : s.ops[i]? = some x) (hy : (overflowDrain s posts).ops[i]? = some y) :
+    y.cancelDropped = x.cancelDropped := by
+  -- position-wise: every stage is a `map` or a `modAt` with a function that keeps the field
+  have stage : ∀ (l : List Op) (f : Op → Op), (∀ o, (f o).cancelDropped = o.cancelDropped) →
+      ∀ (j : Nat) (a b : Op), l[j]? = some a → (l.map f)[j]? = some b → b.cancelDropped = a.cancelDropped := by
+    intro l f hf j a b ha hb
+    rw [List.getElem?_map, ha] at hb
+    obtain rfl := Option.some.inj hb; exact hf a
+  have post : ∀ (t t' : State) (id : Nat) (more : Bool) (r : Res), kPostStep t id more r = some t' →
+      ∀ (j : Nat) (a b : Op), t.ops[j]? = some a → t'.ops[j]? = some b → b.cancelDropped = a.cancelDropped := by
+    intro t t' id more r hk j a b ha hb
+    unfold kPostStep at hk
+    split at hk
+    · split at hk
+      · split at hk
+        all_goals
+          obtain rfl := Option.some.inj hk
+          rcases modAt_cases hb with ⟨_, z, hz, rfl⟩ | ⟨_, hz⟩
+          · rw [ha] at hz; obtain rfl := Option.some.inj hz; rfl
+          · rw [ha] at hz; obtain rfl := Option.some.inj hz; rfl
+      · cases hk
+    · cases hk
+  have fold : ∀ (ps : List (Nat × Bool × Res)) (t : State) (j : Nat) (a b : Op), t.ops[j]? = some a →
+      (ps.foldl (fun s p => (kPostStep s p.1 p.2.1 p.2.2).getD s) t).ops[j]? = some b →
+      b.cancelDropped = a.cancelDropped := by
+    intro ps
+    induction ps with
+    | nil =>
+      intro t j a b ha hb
+      simp only [List.foldl_nil] at hb
+      rw [ha] at hb; obtain rfl := Option.some.inj hb; rfl
+    | cons p ps ih =>
+      intro t j a b ha hb
+      simp only [List.foldl_cons] at hb
+      cases hk : kPostStep t p.1 p.2.1 p.2.2 with
+      | none => rw [hk] at hb; exact ih t j a b ha (by simpa using hb)
+      | some t' =>
+        rw [hk] at hb
+        obtain ⟨m, hm, _⟩ := (kPostStep_same hk).get ha
+        exact (ih t' j m b hm (by simpa using hb)).trans (post t t' _ _ _ hk j a m ha hm)
+  unfold overflowDrain drainAll at hy
+  obtain ⟨x1, hx1, _⟩ := (OpsRel.map same_submit s.ops).get hx
+  have e1 : x1.cancelDropped = x.cancelDropped := stage s.ops Op.submit (fun _ => rfl) i x x1 hx hx1
+  have hsub : (submitAll s).ops[i]? = some x1 := hx1
+  obtain ⟨x2, hx2, _⟩ := (overflowDrain_same s posts).get hx
+  -- the folded state at position i
+  have hlen := (OpsRel.map same_submit s.ops).1
+  cases hmid : (posts.foldl (fun s p => (kPostStep s p.1 p.2.1 p.2.2).getD s) (submitAll s)).ops[i]? with
+  | none => rw [List.getElem?_map, hmid] at hy; cases hy
+  | some m =>
+    have e2 := fold posts (submitAll s) i x1 m hsub hmid
+    have e3 : y.cancelDropped = m.cancelDropped := by
+      refine stage _ Op.drainCq ?_ i m y hmid hy
+      intro o; unfold Op.drainCq; split <;> rfl
+    rw [e3, e2, e1]
+
+theorem driverCancel_iour (c : Cfg) (s : State) (id : Nat) (o : Op) (posts : List (Nat × Bool × Res))
+    (hd : s.drv = .iour) : driverCancel c s id o posts = iourCancel c s id posts := by
+  unfold driverCancel; rw [hd]
+
+/-- repaired `Driver::cancel` (io_uring): the SQE is always queued, never dropped -/
+theorem iourCancel_at (c : Cfg) (hc : c.cancelPushRaw = true) (s : State) (id : Nat) (posts : List (Nat × Bool × Res))
+    {x : Op} (hx : s.ops[id]? = some x) :
+    0 < (iourCancel c s id posts).sqLen ∧
+      ∃ z, (iourCancel c s id posts).ops[id]? = some z ∧ 0 < z.cancelSq ∧ z.cancelDropped = x.cancelDropped ∧
+        z.cancelled = x.cancelled := by
+  unfold iourCancel
+  simp only [hc, if_true]
+  split
+  · exact ⟨by simp [queueCancel], _, modAt_get hx, by simp, rfl, rfl⟩
+  · obtain ⟨y, hy, hs⟩ := (overflowDrain_same s posts).get hx
+    have hcd := overflowDrain_cancelDropped s posts hx hy
+    exact ⟨by simp [queueCancel], _, modAt_get hy, by simp, hcd, hs.cancelled⟩
 
 /-! ### what happens to the addressed op -/
 
-/-- the op after `Driver::cancel`: some update that leaves flag, handles, result and kernel status alone -/
-theorem driverCancel_op (s : State) (id : Nat) (o : Op) :
-    ∃ g : Op → Op, (∀ x, (g x).cancelled = x.cancelled ∧ (g x).user = x.user ∧ (g x).result = x.result ∧
-        (g x).kstat = x.kstat) ∧ (driverCancel s id o).ops[id]? = (s.ops[id]?).map g := by
-  unfold driverCancel iourCancel pollCancel
+/-- the op after `Driver::cancel`: still there, same flag and handles -/
+theorem driverCancel_at (c : Cfg) (s : State) (id : Nat) (o : Op) (posts : List (Nat × Bool × Res)) {x : Op}
+    (hx : s.ops[id]? = some x) :
+    ∃ x', (driverCancel c s id o posts).ops[id]? = some x' ∧ x'.cancelled = x.cancelled ∧ x'.user = x.user := by
+  unfold driverCancel
   split
-  · split
-    · refine ⟨_, ?_, getElem?_modAt_self _ _ _⟩
-      exact fun _ => ⟨rfl, rfl, rfl, rfl⟩
-    · refine ⟨_, ?_, getElem?_modAt_self _ _ _⟩
-      exact fun _ => ⟨rfl, rfl, rfl, rfl⟩
-  · split
-    · exact ⟨fun x => x, fun _ => ⟨rfl, rfl, rfl, rfl⟩, by simp⟩
-    · refine ⟨_, ?_, getElem?_modAt_self _ _ _⟩
-      exact fun _ => ⟨rfl, rfl, rfl, rfl⟩
+  · obtain ⟨x', h1, hs⟩ := (iourCancel_same c s id posts).get hx
+    exact ⟨x', h1, hs.cancelled, hs.user⟩
+  · unfold pollCancel
+    split
+    · exact ⟨x, hx, rfl, rfl⟩
+    · exact ⟨_, modAt_get hx, rfl, rfl⟩
 
-theorem cancelIssue_cancelled (s : State) (id : Nat) (o : Op) {x : Op} (hx : s.ops[id]? = some x) :
-    ∃ x', (cancelIssue s id o).ops[id]? = some x' ∧ x'.cancelled = true ∧ x'.result = x.result := by
+theorem cancelIssue_cancelled (c : Cfg) (s : State) (id : Nat) (o : Op) (posts : List (Nat × Bool × Res)) {x : Op}
+    (hx : s.ops[id]? = some x) :
+    ∃ x', (cancelIssue c s id o posts).ops[id]? = some x' ∧ x'.cancelled = true := by
   unfold cancelIssue
-  obtain ⟨g, hg, h2⟩ := driverCancel_op { s with ops := modAt (fun o => { o with cancelled := true }) s.ops id } id o
-  refine ⟨(Op.dropRef { (g { x with cancelled := true }) with user := (g { x with cancelled := true }).user - 1 }), ?_, ?_, ?_⟩
-  · simp only [getElem?_modAt_self, h2, hx, Option.map_some]
-  · simp only [Op.dropRef, Op.dropRefs]; exact (hg _).1
-  · simp only [Op.dropRef, Op.dropRefs]; exact (hg _).2.2.1
+  have h1 : ({ s with ops := modAt (fun o => { o with cancelled := true }) s.ops id } : State).ops[id]?
+      = some { x with cancelled := true } := modAt_get hx
+  obtain ⟨x2, h2, hc, _⟩ := driverCancel_at c _ id o posts h1
+  exact ⟨_, modAt_get h2, by simp only [Op.dropRef, Op.dropRefs]; exact hc⟩
 
 /-- `cancel_token` on a live op leaves the flag set -/
-theorem cancelTok_cancelled (s : State) (id : Nat) {o : Op} (ho : s.ops[id]? = some o) :
-    ∃ x', (cancelTok s id o).ops[id]? = some x' ∧ x'.cancelled = true := by
+theorem cancelTok_cancelled (c : Cfg) (s : State) (id : Nat) {o : Op} (posts : List (Nat × Bool × Res))
+    (ho : s.ops[id]? = some o) : ∃ x', (cancelTok c s id o posts).ops[id]? = some x' ∧ x'.cancelled = true := by
   unfold cancelTok
   have h0 : ({ s with ops := modAt (fun o => ({ o.cloneRef with user := o.user + 1 } : Op)) s.ops id } : State).ops[id]?
-      = some { o.cloneRef with user := o.user + 1 } := by
-    simp only [getElem?_modAt_self, ho, Option.map_some]
+      = some { o.cloneRef with user := o.user + 1 } := modAt_get ho
   split
-  · refine ⟨(Op.dropRef { ({ o.cloneRef with user := o.user + 1 } : Op) with cancelled := true, user := o.user + 1 - 1 }), ?_, rfl⟩
-    simp only [getElem?_modAt_self, ho, Option.map_some]
-  · obtain ⟨x', h1, h2, _⟩ := cancelIssue_cancelled _ id _ h0
-    exact ⟨x', h1, h2⟩
+  · exact ⟨_, modAt_get h0, rfl⟩
+  · exact cancelIssue_cancelled c _ id _ posts h0
 
 /-! ### single events seen from one op -/
 
-/-- one `cancel_token` touches only its own operation, and a live one ends up flagged -/
-theorem tokenCancel_effect {c : Cfg} {s s' : State} {id : Nat} (h : step c s (.tokenCancel id) = some s') :
-    (∀ j, j ≠ id → s'.ops[j]? = s.ops[j]?) ∧
-      (∀ o, s.ops[id]? = some o → 0 < o.rc → ∃ x, s'.ops[id]? = some x ∧ x.cancelled = true) := by
+/-- one `cancel_token` never touches handles, flags or identity of the OTHER ops (and nothing of them on the polling
+driver), and a live target ends up flagged -/
+theorem tokenCancel_effect {c : Cfg} {s s' : State} {id : Nat} {posts : List (Nat × Bool × Res)}
+    (h : step c s (.tokenCancel id posts) = some s') :
+    (∀ j x, j ≠ id → s.ops[j]? = some x → ∃ x', s'.ops[j]? = some x' ∧ Same x x') ∧
+      (∀ o, s.ops[id]? = some o → 0 < o.rc → ∃ x, s'.ops[id]? = some x ∧ x.cancelled = true) ∧
+      (∀ o, s.ops[id]? = some o → o.rc = 0 → s' = s) := by
   simp only [step] at h
   split at h
   · rename_i o ho
@@ -101,11 +206,13 @@ theorem tokenCancel_effect {c : Cfg} {s s' : State} {id : Nat} (h : step c s (.t
     · split at h
       · rename_i hrc
         obtain rfl := Option.some.inj h
-        exact ⟨fun _ _ => rfl, fun o' ho' hp => by
-          rw [ho] at ho'; obtain rfl := Option.some.inj ho'; omega⟩
-      · obtain rfl := Option.some.inj h
-        exact ⟨fun j hj => cancelTok_frame s id o hj, fun o' ho' _ => by
-          rw [ho] at ho'; obtain rfl := Option.some.inj ho'; exact cancelTok_cancelled s id ho⟩
+        exact ⟨fun j x _ hx => ⟨x, hx, Same.rfl' x⟩, fun o' ho' hp => by
+          rw [ho] at ho'; obtain rfl := Option.some.inj ho'; omega, fun _ _ _ => rfl⟩
+      · rename_i hrc
+        obtain rfl := Option.some.inj h
+        exact ⟨fun j x hj hx => cancelTok_same c s id o posts hj hx, fun o' ho' _ => by
+          rw [ho] at ho'; obtain rfl := Option.some.inj ho'; exact cancelTok_cancelled c s id posts ho,
+          fun o' ho' h0 => by rw [ho] at ho'; obtain rfl := Option.some.inj ho'; exact absurd h0 hrc⟩
     · cases h
   · cases h
 
